@@ -208,7 +208,8 @@ func (vc *VC) runDefersOn(st *State, cond Term) {
 		vc.call(r.in, r.in.Common(), st, g)
 		vc.deferDepth, vc.inRunDefers = sDepth, sIn
 		vc.reachOverride = ""
-		for k, v := range st.heaps {
+		for _, k := range sortedKeys(st.heaps) {
+			v := st.heaps[k]
 			srt := vc.heapSort[k]
 			old := vc.heapGet(pre, k, srt)
 			if old != v {
